@@ -172,3 +172,144 @@ Proof.
   - td_lookup. destruct (v_unroll_variadic c); reflexivity.
   - td_lookup. destruct (v_with_expecter c); reflexivity.
 Qed.
+
+(* ------------------------------------------------------------------ where the levels sit *)
+Lemma assoc_snoc_other {A} a (m : list (str * A)) kp x :
+  seqb a kp = false -> assoc a (m ++ [(kp, x)]) = assoc a m.
+Proof.
+  intros H. induction m as [|[k' v'] t IH]; simpl; [rewrite H; reflexivity|].
+  destruct (seqb a k'); [reflexivity | exact IH].
+Qed.
+
+Lemma packages_not_cfg_key c tpl : ~ In kpackages (map fst (mig_config c tpl)).
+Proof.
+  intros H. apply collapse_keys_incl in H. revert H. apply smem_false. vm_compute. reflexivity.
+Qed.
+
+Definition pkgs_node (r : v2root) : yv := YMap (map (fun e => (fst e, mig_pkg (snd e))) (r_pkgs r)).
+
+Lemma root_packages r : ysub [SK kpackages] (mig_root r) = Some (pkgs_node r).
+Proof.
+  unfold mig_root. cbn [ysub ystep].
+  rewrite assoc_app_r by apply packages_not_cfg_key.
+  cbn [assoc]. rewrite seqb_refl. reflexivity.
+Qed.
+
+Lemma pkg_entries_nodup (a b : option yv) : NoDup (map fst [(kconfig, a); (kinterfaces, b)]).
+Proof. apply nodupb_NoDup. vm_compute. reflexivity. Qed.
+Lemma iface_entries_nodup (a b : option yv) : NoDup (map fst [(kconfig, a); (kconfigs, b)]).
+Proof. apply nodupb_NoDup. vm_compute. reflexivity. Qed.
+
+Definition ifaces_node (pc : v2pkg) : option yv :=
+  match p_ifaces pc with
+  | [] => None
+  | l => Some (YMap (map (fun e => (fst e, mig_iface (snd e))) l))
+  end.
+Definition configs_node (ic : v2iface) : option yv :=
+  match i_configs ic with [] => None | l => Some (YList (map mig_cfg_node l)) end.
+
+Lemma pkg_config_get pc : ysub [SK kconfig] (mig_pkg pc) = option_map mig_cfg_node (p_config pc).
+Proof.
+  unfold mig_pkg. cbn [ysub ystep]. rewrite assoc_collapse by apply pkg_entries_nodup.
+  cbn [assoc]. seqb_compute. destruct (p_config pc); reflexivity.
+Qed.
+Lemma pkg_ifaces_get pc : ysub [SK kinterfaces] (mig_pkg pc) = ifaces_node pc.
+Proof.
+  unfold mig_pkg. cbn [ysub ystep]. rewrite assoc_collapse by apply pkg_entries_nodup.
+  cbn [assoc]. seqb_compute. fold (ifaces_node pc). destruct (ifaces_node pc); reflexivity.
+Qed.
+Lemma iface_config_get ic : ysub [SK kconfig] (mig_iface ic) = option_map mig_cfg_node (i_config ic).
+Proof.
+  unfold mig_iface. cbn [ysub ystep]. rewrite assoc_collapse by apply iface_entries_nodup.
+  cbn [assoc]. seqb_compute. destruct (i_config ic); reflexivity.
+Qed.
+Lemma iface_configs_get ic : ysub [SK kconfigs] (mig_iface ic) = configs_node ic.
+Proof.
+  unfold mig_iface. cbn [ysub ystep]. rewrite assoc_collapse by apply iface_entries_nodup.
+  cbn [assoc]. seqb_compute. fold (configs_node ic). destruct (configs_node ic); reflexivity.
+Qed.
+
+Lemma pkg_get r p : ysub [SK kpackages; SK p] (mig_root r) = option_map mig_pkg (assoc p (r_pkgs r)).
+Proof.
+  change [SK kpackages; SK p] with ([SK kpackages] ++ [SK p]).
+  rewrite ysub_app, root_packages. unfold pkgs_node. cbn [bind ysub ystep].
+  rewrite assoc_map. destruct (assoc p (r_pkgs r)); reflexivity.
+Qed.
+
+Lemma iface_get pc i :
+  bind (ifaces_node pc) (ysub [SK i]) = option_map mig_iface (assoc i (p_ifaces pc)).
+Proof.
+  unfold ifaces_node. destruct (p_ifaces pc) as [|e l] eqn:E; [reflexivity|].
+  cbn [bind ysub ystep]. rewrite assoc_map. destruct (assoc i (e :: l)); reflexivity.
+Qed.
+
+Lemma sub_get ic n :
+  bind (configs_node ic) (ysub [SI n]) = option_map mig_cfg_node (nth_error (i_configs ic) n).
+Proof.
+  unfold configs_node. destruct (i_configs ic) as [|e l] eqn:E.
+  - destruct n; reflexivity.
+  - cbn [bind ysub ystep]. rewrite nth_error_map. destruct (nth_error (e :: l) n); reflexivity.
+Qed.
+
+Lemma bind_option_map {A C D} (o : option A) (f : A -> C) (g : C -> option D) :
+  bind (option_map f o) g = bind o (fun x => g (f x)).
+Proof. destruct o; reflexivity. Qed.
+Lemma option_map_bind {A C D} (o : option A) (f : A -> option C) (g : C -> D) :
+  option_map g (bind o f) = bind o (fun x => option_map g (f x)).
+Proof. destruct o; reflexivity. Qed.
+Lemma bind_ext {A C} (o : option A) (f g : A -> option C) :
+  (forall x, f x = g x) -> bind o f = bind o g.
+Proof. intros H. destruct o; simpl; auto. Qed.
+
+(* the node of every level below the top is the migrated image of that level's v2 record *)
+Lemma level_node r lv :
+  lv <> LTop -> ysub (level_path lv) (mig_root r) = option_map mig_cfg_node (v2_at r lv).
+Proof.
+  intros Hlv. destruct lv as [|p|p i|p i n]; [congruence | | |].
+  - change (level_path (LPkg p)) with ([SK kpackages; SK p] ++ [SK kconfig]).
+    rewrite ysub_app, pkg_get, bind_option_map. cbn [v2_at]. rewrite option_map_bind.
+    apply bind_ext. intros pc. apply pkg_config_get.
+  - change (level_path (LIface p i)) with ([SK kpackages; SK p] ++ [SK kinterfaces] ++ [SK i] ++ [SK kconfig]).
+    rewrite ysub_app, pkg_get, bind_option_map. cbn [v2_at]. rewrite option_map_bind.
+    apply bind_ext. intros pc.
+    rewrite ysub_app, pkg_ifaces_get.
+    transitivity (bind (bind (ifaces_node pc) (ysub [SK i])) (ysub [SK kconfig])).
+    { destruct (ifaces_node pc) as [v|]; [|reflexivity]. cbn [bind]. rewrite ysub_app. reflexivity. }
+    rewrite iface_get, bind_option_map, option_map_bind.
+    apply bind_ext. intros ic. apply iface_config_get.
+  - change (level_path (LSub p i n)) with ([SK kpackages; SK p] ++ [SK kinterfaces] ++ [SK i] ++ [SK kconfigs] ++ [SI n]).
+    rewrite ysub_app, pkg_get, bind_option_map. cbn [v2_at]. rewrite option_map_bind.
+    apply bind_ext. intros pc.
+    rewrite ysub_app, pkg_ifaces_get.
+    transitivity (bind (bind (ifaces_node pc) (ysub [SK i])) (ysub ([SK kconfigs] ++ [SI n]))).
+    { destruct (ifaces_node pc) as [v|]; [|reflexivity]. cbn [bind]. rewrite ysub_app. reflexivity. }
+    rewrite iface_get, bind_option_map, option_map_bind.
+    apply bind_ext. intros ic. rewrite ysub_app, iface_configs_get. apply sub_get.
+Qed.
+
+Lemma place_not_packages k : match place k with SK a :: _ => seqb a kpackages = false | _ => False end.
+Proof. destruct k; vm_compute; reflexivity. Qed.
+
+Lemma top_place r k :
+  ysub (place k) (mig_root r) = ysub (place k) (YMap (mig_config (r_top r) (Some testify))).
+Proof.
+  pose proof (place_not_packages k) as H. unfold mig_root.
+  destruct (place k) as [|[a|n] q]; [contradiction | | contradiction].
+  cbn [ysub ystep]. rewrite assoc_snoc_other by exact H. reflexivity.
+Qed.
+
+Lemma migrate_ok r out : migrate r = MOk out -> out = mig_root r /\ wf_root r = true.
+Proof. unfold migrate. destruct (wf_root r); [intros H; injection H as <-; auto | discriminate]. Qed.
+
+Lemma key_preserved r out lv c k :
+  migrate r = MOk out -> v2_at r lv = Some c ->
+  ysub (level_path lv ++ place k) out = norm (v2_val c k).
+Proof.
+  intros Hm Hc. apply migrate_ok in Hm as [-> _]. rewrite ysub_app.
+  destruct lv as [|p|p i|p i n].
+  - cbn [level_path ysub bind]. rewrite top_place. cbn in Hc. injection Hc as <-.
+    apply cfg_key_preserved.
+  - rewrite level_node by discriminate. rewrite Hc. apply cfg_key_preserved.
+  - rewrite level_node by discriminate. rewrite Hc. apply cfg_key_preserved.
+  - rewrite level_node by discriminate. rewrite Hc. apply cfg_key_preserved.
+Qed.
